@@ -9,6 +9,7 @@ import itertools
 
 INT_BIN = ['+', '-', '*', '%', '|', '^', '&', '<<', '>>']
 INT_UN = ['-', '+', '~']
+BOOL_ARITH = ['+', '-', '*']
 CMP = ['<', '>', '<=', '>=', '==', '!=']
 BOOL_BIN = ['and', 'or']
 
@@ -143,6 +144,11 @@ class Shapes:
                 for op in INT_BIN:
                     for l, r in self.split2(n - 1, 'int', 'int'):
                         out.append(('bin', op, l, r))
+                # bool operands of arithmetic promote to int in both languages (the stub library declares bool.__add__ -> int)
+                for op in BOOL_ARITH:
+                    for t1, t2 in (('bool', 'bool'), ('int', 'bool'), ('bool', 'int')):
+                        for l, r in self.split2(n - 1, t1, t2):
+                            out.append(('bin', op, l, r))
                 for op in INT_UN:
                     for x in self.trees(n - 1, 'int'):
                         out.append(('un', op, x))
@@ -236,6 +242,11 @@ def one_op_all_leaves():
     for op in INT_UN:
         for x in ints:
             yield ('un', op, x)
+    for op in BOOL_ARITH:
+        for l, r in itertools.product(bools[:2], repeat=2):
+            yield ('bin', op, l, r)
+        yield ('bin', op, ints[0], bools[0])
+        yield ('bin', op, bools[1], ints[1])
     for op in CMP:
         for l, r in itertools.product(ints, repeat=2):
             yield ('bin', op, l, r)
